@@ -13,6 +13,7 @@ import pandas as pd
 from tabulate import tabulate
 
 from glotaran.io import load_parameters
+from glotaran.parameter.parameter import PARAMETER_EXPRESSION_REGEX
 from glotaran.parameter.parameter import Parameter
 from glotaran.utils.ipython import MarkdownStr
 from glotaran.utils.sanitize import pretty_format_numerical
@@ -315,15 +316,40 @@ class Parameters:
         ValueError
             Raised if an expression evaluates to a non-numeric value.
         """
+        for parameter in self._expression_parameters_in_dependency_order():
+            value = self._evaluator(parameter.transformed_expression)
+            if not isinstance(value, (int, float)):
+                raise ValueError(
+                    f"Expression '{parameter.expression}' of parameter '{parameter.label}' "
+                    f"evaluates to non numeric value '{value}'."
+                )
+            parameter.value = value
+
+    def _expression_parameters_in_dependency_order(self) -> list[Parameter]:
+        """Get the parameters with an expression, referenced ones before the ones referencing them.
+
+        Returns
+        -------
+        list[Parameter]
+            The parameters which have an expression in evaluation order.
+        """
+        ordered: list[Parameter] = []
+        visited: set[str] = set()
+
+        def visit(parameter: Parameter):
+            if parameter.label in visited:
+                return
+            visited.add(parameter.label)
+            for match in PARAMETER_EXPRESSION_REGEX.finditer(parameter.expression or ""):
+                referenced = self._parameters.get(match.group("parameter_expression"))
+                if referenced is not None and referenced.expression is not None:
+                    visit(referenced)
+            ordered.append(parameter)
+
         for parameter in self.all():
             if parameter.expression is not None:
-                value = self._evaluator(parameter.transformed_expression)
-                if not isinstance(value, (int, float)):
-                    raise ValueError(
-                        f"Expression '{parameter.expression}' of parameter '{parameter.label}' "
-                        f"evaluates to non numeric value '{value}'."
-                    )
-                parameter.value = value
+                visit(parameter)
+        return ordered
 
     def get_label_value_and_bounds_arrays(
         self, exclude_non_vary: bool = False
